@@ -303,168 +303,3 @@ Fixpoint run (c : cfg) (s : state) (ls : list label) : option state :=
   | [] => Some s
   | l :: ls' => match step c s l with Some s' => run c s' ls' | None => None end
   end.
-
-(* ---------------------------------------------------------------- acceptance of a recorded call log
-
-   A call log contains the visible labels only (in the order of one atomic counter).  `accepts`
-   decides whether some run of the model produces exactly that log: a depth-first search over the
-   hidden steps, memoising failed (position, state) pairs.  Hidden steps are tried before the next
-   logged event (threads run as far as they can, as real goroutines do).  Two facts recorded by the
-   driver prune the search without losing any run: a caller (or the main goroutine) that is parked in
-   a yield hook takes no step until the driver releases it, and a thread for which a yield probe is
-   still to come in the log cannot already have passed that yield point.
-   Wait results and the collector content are recorded by the driver as token bit masks. *)
-
-Inductive ev :=
-| EL (l : label)                  (* a visible label, exactly *)
-| EWaitAgg (i : nat) (m : nat)    (* caller i's Wait returned a non-nil aggregate with token mask m *)
-| EQuiesced (m : nat)             (* probe: every service goroutine has returned; collector mask m *)
-| EResume (i : nat)               (* the driver releases caller i from its yield hook *)
-| EResumeMain                     (* the driver releases the main goroutine from its yield hook *)
-| EBad.                           (* an observation the model has no label for (never accepted) *)
-
-Definition bpc_eqb (a b : bpc) : bool :=
-  match a, b with
-  | BNone, BNone | B0, B0 | B1, B1 | B2, B2 | B3, B3 | B4, B4 | B5, B5 | B6, B6 | B7, B7 | B8, B8 | B9, B9 | BDone, BDone => true
-  | _, _ => false
-  end.
-Definition epc_eqb (a b : epc) : bool :=
-  match a, b with
-  | ENone, ENone | E0, E0 | E1, E1 | E2, E2 | E3, E3 | E4, E4 | E5, E5 | E6, E6 | E6n, E6n | E7, E7 | E8, E8 | EDone, EDone => true
-  | _, _ => false
-  end.
-Definition dpc_eqb (a b : dpc) : bool :=
-  match a, b with
-  | DNone, DNone | D0, D0 | D1, D1 | D2, D2 | D3, D3 | D4, D4 | D4n, D4n | D5, D5 | D6, D6 | DDone, DDone => true
-  | _, _ => false
-  end.
-Definition mpc_eqb (a b : mpc) : bool :=
-  match a, b with
-  | MNone, MNone | M0, M0 | M1, M1 | M2, M2 | M3, M3 | M4, M4 | M5, M5 | M6, M6 | M7, M7 | M8, M8 | M9, M9
-  | M10, M10 | M11, M11 | M12, M12 | M13, M13 | M14, M14 | MDone, MDone => true
-  | _, _ => false
-  end.
-Definition cpc_eqb (a b : cpc) : bool :=
-  match a, b with
-  | S0, S0 | S1, S1 | SBody, SBody | W0, W0 | W1, W1 | W2, W2 | W3, W3 | C0, C0 | C1, C1 | C2, C2 | CRet, CRet
-  | R0, R0 | R1, R1 | Gone, Gone => true
-  | SRet x, SRet y => sres_eqb x y
-  | WRet x, WRet y => wres_eqb x y
-  | RRet x, RRet y => Bool.eqb x y
-  | _, _ => false
-  end.
-Fixpoint list_eqb {A} (eqb : A -> A -> bool) (a b : list A) : bool :=
-  match a, b with
-  | [], [] => true
-  | x :: a', y :: b' => eqb x y && list_eqb eqb a' b'
-  | _, _ => false
-  end.
-
-Definition state_eqb (a b : state) : bool :=
-  mpc_eqb (mn a) (mn b) && list_eqb cpc_eqb (callers a) (callers b) && bpc_eqb (body a) (body b) &&
-  epc_eqb (eh a) (eh b) && dpc_eqb (sd a) (sd b) &&
-  Bool.eqb (fRun a) (fRun b) && Bool.eqb (fFin a) (fFin b) && Bool.eqb (fSta a) (fSta b) &&
-  Bool.eqb (cancelSet a) (cancelSet b) && Bool.eqb (ctxDone a) (ctxDone b) && Bool.eqb (parentDone a) (parentDone b) &&
-  Bool.eqb (sdSig a) (sdSig b) && Bool.eqb (ehSig a) (ehSig b) && Bool.eqb (mainSig a) (mainSig b) &&
-  Nat.eqb (wg a) (wg b) && ecs_eqb (ec a) (ec b).
-
-Definition threads_of (s : state) : list thread :=
-  map TCaller (rev (seq 0 (length (callers s)))) ++ [TMain; TSd; TEh].
-
-Definition mask_bit (m i : nat) : bool := Nat.testbit m i.
-
-(* phase tokens (bits 0..5) must agree exactly; the handler-panic token and the marker may be added
-   to the live aggregate after Wait took it, so they are only required when the model has them *)
-Definition mask_compat (e : ecs) (m : nat) : bool :=
-  Bool.eqb (tRunErr e) (mask_bit m 0) && Bool.eqb (tRunPan e) (mask_bit m 1) &&
-  Bool.eqb (tSdErr e) (mask_bit m 2) && Bool.eqb (tSdPan e) (mask_bit m 3) &&
-  Bool.eqb (tClErr e) (mask_bit m 4) && Bool.eqb (tClPan e) (mask_bit m 5) &&
-  implb (tEhPan e) (mask_bit m 6) && implb (tMark e) (mask_bit m 7).
-
-Definition mask_exact (e : ecs) (m : nat) : bool :=
-  mask_compat e m && Bool.eqb (tEhPan e) (mask_bit m 6) && Bool.eqb (tMark e) (mask_bit m 7).
-
-(* search state: model state, parked callers, main goroutine parked? *)
-Record sst := MkSst { ss : state; parked : list nat; mparked : bool }.
-
-Definition estep (c : cfg) (x : sst) (e : ev) : option sst :=
-  match e with
-  | EL (LTau _) => None
-  | EL (LYield h i) => match step c (ss x) (LYield h i) with Some s' => Some (MkSst s' (i :: parked x) (mparked x)) | None => None end
-  | EL LYieldMain => match step c (ss x) LYieldMain with Some s' => Some (MkSst s' (parked x) true) | None => None end
-  | EL l => match step c (ss x) l with Some s' => Some (MkSst s' (parked x) (mparked x)) | None => None end
-  | EWaitAgg i m =>
-      match nth_error (callers (ss x)) i with
-      | Some (WRet (WAgg a)) =>
-          if mask_compat a m then
-            match step c (ss x) (LRet i (RWait (WAgg a))) with Some s' => Some (MkSst s' (parked x) (mparked x)) | None => None end
-          else None
-      | _ => None
-      end
-  | EQuiesced m =>
-      match eh (ss x), sd (ss x), mn (ss x) with
-      | EDone, DDone, MDone => if mask_exact (ec (ss x)) m then Some x else None
-      | _, _, _ => None
-      end
-  | EResume i => if existsb (Nat.eqb i) (parked x) then Some (MkSst (ss x) (filter (fun j => negb (Nat.eqb i j)) (parked x)) (mparked x)) else None
-  | EResumeMain => if mparked x then Some (MkSst (ss x) (parked x) false) else None
-  | EBad => None
-  end.
-
-(* yield probes still to come in the log *)
-Definition pend_checked (evs : list ev) (i : nat) : bool :=
-  existsb (fun e => match e with EL (LYield HChecked j) => Nat.eqb i j | _ => false end) evs.
-Definition pend_launched (evs : list ev) (i : nat) : bool :=
-  existsb (fun e => match e with EL (LYield HLaunched j) => Nat.eqb i j | _ => false end) evs.
-Definition pend_main (evs : list ev) : bool :=
-  existsb (fun e => match e with EL LYieldMain => true | _ => false end) evs.
-
-(* may thread t take a hidden step now? *)
-Definition may_step (x : sst) (evs : list ev) (t : thread) : bool :=
-  match t with
-  | TCaller i =>
-      negb (existsb (Nat.eqb i) (parked x)) &&
-      match nth_error (callers (ss x)) i with
-      | Some S1 => negb (pend_checked evs i)
-      | Some SBody => match body (ss x) with B8 => negb (pend_launched evs i) | _ => true end
-      | _ => true
-      end
-  | TMain => negb (mparked x) && match mn (ss x) with M12 => negb (pend_main evs) | _ => true end
-  | _ => true
-  end.
-
-Definition tau_opts (c : cfg) (x : sst) (evs : list ev) : list sst :=
-  flat_map (fun t => if may_step x evs t
-                     then match step_tau c (ss x) t with Some s' => [MkSst s' (parked x) (mparked x)] | None => [] end
-                     else []) (threads_of (ss x)).
-
-Definition memo := list (nat * state).
-Definition memo_has (n : nat) (s : state) (m : memo) : bool :=
-  existsb (fun p => Nat.eqb (fst p) n && state_eqb (snd p) s) m.
-
-(* result: accepted?, memo of failed (remaining length, state), fuel exhausted somewhere? *)
-Fixpoint dfs (fuel : nat) (c : cfg) (x : sst) (evs : list ev) (m : memo) : bool * memo * bool :=
-  match fuel with
-  | O => (false, m, true)
-  | S f =>
-    match evs with
-    | [] => (true, m, false)
-    | e :: evs' =>
-      if memo_has (length evs) (ss x) m then (false, m, false)
-      else
-        let opts := map (fun y => (y, evs)) (tau_opts c x evs) ++
-                    match estep c x e with Some y => [(y, evs')] | None => [] end in
-        (fix try (os : list (sst * list ev)) (m : memo) (ex : bool) : bool * memo * bool :=
-           match os with
-           | [] => (false, (length evs, ss x) :: m, ex)
-           | (y, evs1) :: os' =>
-             let '(r, m', ex') := dfs f c y evs1 m in
-             if r then (true, m', ex || ex') else try os' m' (ex || ex')
-           end) opts m false
-    end
-  end.
-
-Definition search_depth := 4000.
-
-Definition accepts (c : cfg) (evs : list ev) : bool :=
-  let '(r, _, _) := dfs search_depth c (MkSst init [] false) evs [] in r.
